@@ -229,6 +229,11 @@ class Flow:
             if cv is not None:
                 return cv | {a for a in A(e.value)
                              if not a.startswith(('const:', 'key:'))}
+        if isinstance(e, ast.Attribute) and fn is not None and depth <= \
+                self.max_depth:
+            nt = self._nt_field(e.value, e.attr, fn, bind, depth, _seen, 0)
+            if nt is not None:
+                return nt
         if isinstance(e, ast.Subscript) and isinstance(
                 e.value, ast.Name) and isinstance(
                     e.slice, (ast.Attribute, ast.Constant)) and \
@@ -336,6 +341,69 @@ class Flow:
         if isinstance(e, ast.NamedExpr):
             return A(e.value)
         return {unparse(e)}
+
+    def _nt_fields(self, func, fn):
+        """Field names when `func` names a module-level namedtuple class
+        (`N = namedtuple('N', ['a', 'b'])`)."""
+        if not isinstance(func, ast.Name):
+            return None
+        try:
+            r = self.repo.resolve_symbol(fn.module.name, func.id)
+        except Exception:
+            return None
+        if r is None or r[0] != 'value' or not isinstance(r[3], ast.Call):
+            return None
+        c = r[3]
+        nm = c.func.attr if isinstance(c.func, ast.Attribute) else (
+            c.func.id if isinstance(c.func, ast.Name) else '')
+        if nm != 'namedtuple' or len(c.args) != 2:
+            return None
+        f = c.args[1]
+        if isinstance(f, (ast.List, ast.Tuple)) and all(
+                isinstance(x, ast.Constant) and isinstance(x.value, str)
+                for x in f.elts):
+            return [x.value for x in f.elts]
+        if isinstance(f, ast.Constant) and isinstance(f.value, str):
+            return f.value.replace(',', ' ').split()
+        return None
+
+    def _nt_field(self, x, attr, fn, bind, depth, _seen, _d):
+        """Atoms of `x.attr` when x is a namedtuple record built by a
+        constructor call here or in a helper (one return): the argument
+        given for that field."""
+        if _d > 3:
+            return None
+        if isinstance(x, ast.Name):
+            if x.id in Q.params(fn.node):
+                return None
+            ds = self.defs(fn.node).get(x.id) or []
+            if len(ds) != 1 or ds[0][0] != 'value':
+                return None
+            return self._nt_field(ds[0][1], attr, fn, bind, depth, _seen,
+                                  _d + 1)
+        if not isinstance(x, ast.Call):
+            return None
+        fields = self._nt_fields(x.func, fn)
+        if fields is not None:
+            if attr not in fields:
+                return None
+            arg = Q.kwarg(x, attr)
+            i = fields.index(attr)
+            if arg is None and i < len(x.args) and not any(
+                    isinstance(a, ast.Starred) for a in x.args[:i + 1]):
+                arg = x.args[i]
+            if arg is None:
+                return None
+            return self.atoms(arg, fn, bind, depth, _seen)
+        callee = self.resolve_call(x, fn)
+        if callee is None or callee is fn:
+            return None
+        rets = self._returns(callee)
+        if len(rets) != 1:
+            return None
+        b = self._bind_args(x, callee, fn, bind, depth, set())
+        return self._nt_field(rets[0], attr, callee, b, depth + 1, _seen,
+                              _d + 1)
 
     def _const_table_cells(self, t, fn):
         """{'const:..'} for every cell of a module-level or class-level
